@@ -28,11 +28,11 @@ Alphabet(arch, k) ==
                            ELSE <<Rnd, Rnd, 0, 255>>
       [] arch = "riscv" ->
           (CASE k % 8 = 0 -> <<23, 151, 239, 23, 151, Rnd, 1>>
-             [] k % 8 = 1 -> <<0, 1, 49, 113, 5, 128, 2, 240, 18, Rnd>>
+             [] k % 8 = 1 -> <<0, 1, 49, 113, 5, 128, 2, 240, 18, 4, 6, 8, 196, Rnd>>
              [] k % 8 = 2 -> <<Rnd, 0, 255, 16>>
              [] k % 8 = 3 -> <<Rnd, 0, 16, 8, 248, 255>>
              [] k % 8 = 4 -> <<3, 103, 19, 231, 1, 23, 151, 239, Rnd>>
-             [] k % 8 = 5 -> <<128, 0, 129, 0, Rnd>>
+             [] k % 8 = 5 -> <<128, 0, 129, 0, 4, 2, 8, Rnd>>
              [] k % 8 = 6 -> <<0, 2, 15, 240, 1, Rnd>>
              [] k % 8 = 7 -> <<Rnd, 0, 128, 255, 127>>)
       [] arch = "ia64" -> IF k % 16 = 0 THEN <<16, 17, 18, 19, 22, 23, 24, 25, 28, 29, 0, 20, 214, 242>> ELSE <<Rnd>>
@@ -63,6 +63,19 @@ X86Pair(d, op1, op2, m1, m2, fill) ==
         base  == first \o [i \in 1..(d + 8) |-> fill]
     IN [i \in 1..Len(base) |-> IF i = d + 1 THEN op2 ELSE IF i = d + 5 /\ d > 0 THEN m2 ELSE
                                IF i = 1 THEN op1 ELSE base[i]]
+
+\* hand-made ARM64 class: ADRP with every value of the four page-offset bits that the +-512 MiB gate inspects
+\* (imm bits 17..20 = high nibble of the third byte), followed by a BL and an incomplete word
+Arm64Gate == <<1, 0, 0, 144,  2, 0, 16, 176,  3, 0, 32, 208,  4, 0, 64, 240,  5, 0, 128, 144,  6, 255, 224, 176,
+               7, 255, 240, 208,  8, 255, 208, 240,  9, 255, 255, 151,  144, 0>>
+
+\* hand-made RISC-V class: JAL with each of the 16 values of rd[4:1] (only x1 and x5 are converted), then an
+\* AUIPC+JALR pair for every second rd, then bytes that cannot be completed
+RvJalAll == LET jal(v) == <<239, 48 + v, 18 + v, 52>>
+                pair(rd) == <<23 + 128 * (rd % 2), 16 * 5 + (rd \div 2), 52, 18,  103, 128 * (rd % 2), (rd \div 2) + 16 * 7, 254>>
+            IN jal(0) \o jal(1) \o jal(2) \o jal(3) \o jal(4) \o jal(5) \o jal(6) \o jal(7) \o jal(8) \o jal(9) \o jal(10)
+               \o jal(11) \o jal(12) \o jal(13) \o jal(14) \o jal(15) \o pair(1) \o pair(2) \o pair(3) \o pair(5) \o pair(10)
+               \o pair(31) \o pair(0) \o <<239, 0, 1>>
 
 \* start offsets: 0, small aligned, near the 32-bit wrap, large
 Offsets(arch) == LET a == Alignment(arch)
